@@ -158,6 +158,24 @@ func checkC12(c *Ctx, r *Report) {
 						ok2, why = false, "it is "+exprText(o)
 						continue
 					}
+					// (read through single-writer fields of a per-call state object)
+					if cr, last := canonRootSel(ld.X); last == "CipherSuites" && cr != nil {
+						if cr == ssa.Value(optsP) {
+							continue
+						}
+						// the state object was given the options by a spliced helper: its parameter is
+						// the exported function's argument
+						os := viewOrigins(root, cr)
+						all := len(os) > 0
+						for _, o2 := range os {
+							if o2 != ssa.Value(optsP) {
+								all = false
+							}
+						}
+						if all {
+							continue
+						}
+					}
 					aps := viewAPs(root, ld.X)
 					if len(aps) == 0 {
 						ok2, why = false, "it does not resolve to a field of the options"
